@@ -40,6 +40,8 @@ verifies = tm.FunDecl("ecdsa.verifies", [SK, BYTES, BYTES], BOOL)      # s is a 
 
 @LM.register_external("argparse.ArgumentParser")
 def _argparser(ip, st, args, kwargs):
+    if set(kwargs) - {"description", "prog", "epilog", "usage"}:      # texts shown in the help only
+        raise Unsupported("ArgumentParser(%s) is not modelled" % ", ".join(sorted(kwargs)))
     yield st, Opaque("argparser")
 
 
@@ -92,6 +94,9 @@ LM.EXTERNAL_VALUES["ecdsa.util.sigencode_der"] = Opaque("sigencode_der")
 
 @LM.register_external("ecdsa.SigningKey.generate")
 def _generate(ip, st, args, kwargs):
+    if set(kwargs) - {"curve"} or args:
+        raise Unsupported("SigningKey.generate with arguments other than curve= is not modelled")
+    # (curve= is accepted whatever it is: the key is an abstract value of sort SK; C19 does not fix the curve)
     k = tm.Fresh("sk", SK)
     g = st.ghost
     g["keys_generated"] = as_value("int", tm.Add(to_term(g["keys_generated"]), tm.Int(1)))
